@@ -92,6 +92,14 @@ def gen(args):
                 c["maha"] = [snap(m, s * s) for m in d2]
                 if all(np.array_equal(L, np.eye(dim)) for L in Ls[:1]):
                     c["sq"] = snap(d2[0], s * s)        # identity precision = periodic distance
+            elif kind in ("cell", "free", "aniso") and rng.random() < 0.3:
+                # documented defaults: Y omitted means Y = X, squared omitted means plain distances
+                c["Y"] = c["X"]; Yf = Xf
+                sq = periodic_pairwise_euclidean_distances(Xf, squared=True, cell_length=cellarg)
+                d = periodic_pairwise_euclidean_distances(Xf, cell_length=cellarg)
+                sqT = periodic_pairwise_euclidean_distances(Xf, None, squared=True, cell_length=cellarg)
+                c["sq"], c["sqT"] = snap(sq, s * s), snap(sqT, s * s)
+                c["dq"] = [[int(round(v * s * 1024)) for v in row] for row in d]
             else:
                 sq = periodic_pairwise_euclidean_distances(Xf, Yf, squared=True, cell_length=cellarg)
                 d = periodic_pairwise_euclidean_distances(Xf, Yf, squared=False, cell_length=cellarg)
